@@ -312,6 +312,36 @@ def roundtrip_stream(ctx, g, batch, ir, auxinfo, bs, tag):
             ctx.count("second_loads")
         except Exception as e:  # noqa: BLE001
             ctx.add("oracle", "roundtrip:load-raised", "a second load of the same file raises %s" % exc_name(g, e), {"tag": tag, "file": bs.hex()})
+    if auxinfo:
+        # a COPY of a freshly loaded IR -- copy.deepcopy or a pickle round trip -- made before any table was read: a loaded IR like any
+        # other (its tables decode against ITS nodes, its references are its own objects, it saves to the same message)
+        import copy
+        import pickle
+        for how in ("deepcopy", "pickle"):
+            try:
+                fresh = load_bytes(g, bs)
+                ir4 = copy.deepcopy(fresh) if how == "deepcopy" else pickle.loads(pickle.dumps(fresh))
+            except Exception:  # noqa: BLE001
+                ir4 = None
+                ctx.count("copy_of_loaded_ir_unsupported:" + how)
+            if ir4 is not None:
+                n0 = len(ctx.findings)
+                aux_values_check(ctx, g, ir4, auxinfo, ir, tag + ":copied-before-read")
+                for prob in content.identity_check(g, ir4):
+                    ctx.add("oracle", "roundtrip:identity", prob, {"tag": tag, "file": bs.hex()})
+                for prob in content.shared_between(fresh, ir4):
+                    ctx.add("oracle", "roundtrip:coherence", "a loaded IR and its copy: " + prob, {"tag": tag, "file": bs.hex()})
+                try:
+                    if content.canon_msg(content.msg_to_sx(parse_body(save_bytes(ir4)))) != content.canon_msg(content.msg_to_sx(parse_body(bs))):
+                        ctx.add("oracle", "roundtrip:resave", "saving the copy gives a different message", {"tag": tag, "file": bs.hex()})
+                except Exception as e:  # noqa: BLE001
+                    ctx.add("oracle", "roundtrip:resave-raised", "saving the copy raised %s" % exc_name(g, e), {"tag": tag, "file": bs.hex()})
+                for f in ctx.findings[n0:]:
+                    f.what = "on a %s of the loaded IR taken before any table was read: %s" % ("deep copy" if how == "deepcopy" else "pickle round trip", f.what)
+                    if isinstance(f.replay, dict):
+                        f.replay.setdefault("file", bs.hex())
+                        f.replay["copied_before_read"] = how
+                ctx.count("copies_of_loaded_irs:" + how)
     try:
         bs2 = save_bytes(ir2)
         m1 = content.canon_msg(content.msg_to_sx(parse_body(bs)))
